@@ -16,39 +16,34 @@ import (
 // ---- in-memory model of the Database interface: association list keyed by byte strings ----
 
 type zzDB struct {
-	keys, vals [][]byte
+	keys, vals [][]byte // newest entry last; a key may occur more than once, the newest wins
 }
 
-func (d *zzDB) find(key []byte) int {
-	for i := range d.keys {
-		if bytes.Equal(d.keys[i], key) {
-			return i
-		}
-	}
-	return -1
-}
-
+// Get scans from the newest entry. Keys of equal length are compared by the solver (hash terms).
 func (d *zzDB) Get(key []byte) ([]byte, bool) {
-	if i := d.find(key); i >= 0 {
-		return d.vals[i], true
+	for i := len(d.keys) - 1; i >= 0; i-- {
+		if bytes.Equal(d.keys[i], key) {
+			return d.vals[i], true
+		}
 	}
 	return nil, false
 }
 
+// Set appends (no lookup, hence no solver query); older entries of the same key are shadowed.
 func (d *zzDB) Set(key, val []byte) {
-	k, v := append([]byte{}, key...), append([]byte{}, val...)
-	if i := d.find(key); i >= 0 {
-		d.vals[i] = v
-		return
-	}
-	d.keys, d.vals = append(d.keys, k), append(d.vals, v)
+	d.keys = append(d.keys, append([]byte{}, key...))
+	d.vals = append(d.vals, append([]byte{}, val...))
 }
 
+// Del removes every entry of the key.
 func (d *zzDB) Del(key []byte) {
-	if i := d.find(key); i >= 0 {
-		d.keys = append(d.keys[:i:i], d.keys[i+1:]...)
-		d.vals = append(d.vals[:i:i], d.vals[i+1:]...)
+	var keys, vals [][]byte
+	for i := range d.keys {
+		if !bytes.Equal(d.keys[i], key) {
+			keys, vals = append(keys, d.keys[i]), append(vals, d.vals[i])
+		}
 	}
+	d.keys, d.vals = keys, vals
 }
 
 // ---- reference implementation of LIP-0031 (independent of the package's helpers) ----
@@ -127,7 +122,7 @@ func zzTree(t *zzT, vals [][]byte) (*RegularMerkleTree, *zzDB) {
 // C11.a: after each of n appends from the empty tree, root ≡ CalculateRoot(prefix) ≡ reference
 // root, Size ≡ number of leaves, AppendPath ≡ reference append path.
 //
-//zz:opt loop=40 require=end
+//zz:opt loop=200 require=end
 //zz:quick N=5 W=2
 //zz:thorough N=9 W=2
 func zzH_C11_append_root(t *zzT) {
@@ -144,16 +139,30 @@ func zzH_C11_append_root(t *zzT) {
 		t.Assert(tree.Size() == uint64(k), "size counts the appended leaves")
 		t.Assert(zzSameList(tree.AppendPath(), zzRefAppendPath(vals[:k])), "append path equals the roots of the complete subtrees, smallest first")
 	}
+	t.Reach("end")
+}
+
+// C11.a (batch): CalculateRoot(list) ≡ reference LIP-0031 root (and therefore, with
+// zzH_C11_append_root, ≡ the root after appending one by one). calculateRoot fans out one goroutine
+// per half; the goroutines share nothing but their result channels, sched=0 switches only when the
+// running goroutine blocks, and the engine still explores every order in which the blocked parents
+// and their children can be resumed (no partial-order reduction), which bounds N here.
+//
+//zz:opt loop=40 require=end sched=0
+//zz:quick N=4 W=2
+//zz:thorough N=6 W=2
+func zzH_C11_batch_root(t *zzT) {
+	n := t.Range("n", 0, t.Param("N", 4))
+	vals := zzLeaves(t, n)
 	batch := CalculateRoot(vals)
 	t.Assert(bytes.Equal(batch, zzRefRoot(vals)), "CalculateRoot equals the LIP-0031 root")
-	t.Assert(bytes.Equal(batch, tree.Root()), "batch root equals the root after appending one by one")
 	t.Reach("end")
 }
 
 // C11.a (storage): a tree reloaded from the database after n appends has the same root, size and
 // append path, and continues identically (one more append gives the same root).
 //
-//zz:opt loop=40 require=end
+//zz:opt loop=200 require=end
 //zz:quick N=4 W=2
 //zz:thorough N=8 W=2
 func zzH_C11_reload(t *zzT) {
@@ -177,7 +186,7 @@ func zzH_C11_reload(t *zzT) {
 // C11.b: root, append path and size predicted by CalculateRootFromAppendPath from (value, append
 // path, size) equal those after the real append.
 //
-//zz:opt loop=70 require=end
+//zz:opt loop=200 require=end
 //zz:quick N=5 W=2
 //zz:thorough N=9 W=2
 func zzH_C11_predict_append(t *zzT) {
@@ -215,9 +224,9 @@ func zzSubset(t *zzT, n int, rev bool) []int {
 // increasing or decreasing order) verifies against the root; it does not verify against another
 // root, for another (different) query hash, or with one (different) sibling hash.
 //
-//zz:opt loop=40 require=end
-//zz:quick N=4 W=2
-//zz:thorough N=6 W=2
+//zz:opt loop=200 require=end
+//zz:quick N=3 W=2
+//zz:thorough N=5 W=2
 func zzH_C11_proof(t *zzT) {
 	n := t.Range("n", 1, t.Param("N", 4))
 	vals := zzLeaves(t, n)
@@ -261,7 +270,7 @@ func zzH_C11_proof(t *zzT) {
 // C11.c: updating a subset of leaves through a proof (CalculateRootFromUpdateData) and in the tree
 // (Update) yields the root of the modified list.
 //
-//zz:opt loop=40 require=end
+//zz:opt loop=200 require=end
 //zz:quick N=4 W=2
 //zz:thorough N=6 W=2
 func zzH_C11_update(t *zzT) {
@@ -296,7 +305,7 @@ func zzH_C11_update(t *zzT) {
 // C11.c: for every split position k, the append path of the first k leaves together with the right
 // witness generated by the full tree reconstructs the root.
 //
-//zz:opt loop=70 require=end
+//zz:opt loop=200 require=end
 //zz:quick N=5 W=2
 //zz:thorough N=8 W=2
 func zzH_C11_right_witness(t *zzT) {
@@ -314,5 +323,115 @@ func zzH_C11_right_witness(t *zzT) {
 		t.Fail("generated right witness drives CalculateRootFromRightWitness into its endless loop")
 	}
 	t.Assert(VerifyRightWitness(uint64(k), left, witness, zzRefRoot(vals)), "append path of the first k leaves and the right witness reconstruct the root")
+	t.Reach("end")
+}
+
+// ---- C11.d: index arithmetic (indexes concretised by t.Range: strconv/float need concrete values) ----
+
+func zzBitLen(x uint64) int {
+	n := 0
+	for ; x != 0; x >>= 1 {
+		n++
+	}
+	return n
+}
+
+// zzBefore is the order kept by indexes.sort / insert: deeper layers (longer indexes) first, then
+// ascending.
+func zzBefore(a, b uint64) bool {
+	if zzBitLen(a) != zzBitLen(b) {
+		return zzBitLen(a) > zzBitLen(b)
+	}
+	return a < b
+}
+
+// nodeLocation.index and newNodeLocation are inverse to each other for every node of a tree of the
+// given height, index = 1‖nodeIndex written with (height - layer) bits; sibling / left tests.
+//
+//zz:opt loop=40 require=end
+//zz:quick H=5
+//zz:thorough H=6
+func zzH_C11_index_location(t *zzT) {
+	height := t.Range("height", 1, t.Param("H", 5))
+	layer := t.Range("layer", 0, height-1)
+	bits := uint(height - layer)
+	node := uint64(t.Range("node", 0, (1<<bits)-1))
+	loc := &nodeLocation{nodeIndex: node, layerIndex: uint64(layer)}
+	idx, err := loc.index(uint64(height))
+	t.Assert(err == nil, "index of a node inside the tree is defined")
+	t.Assert(idx == (1<<bits)|node, "index = 1 followed by the node index in (height - layer) bits")
+	back, err := newNodeLocation(idx, uint64(height))
+	t.Assert(err == nil && back != nil && back.nodeIndex == node && back.layerIndex == uint64(layer), "newNodeLocation(index(loc)) == loc")
+	t.Assert(length(idx) == uint64(bits)+1, "length = number of binary digits")
+	t.Assert((layer == height-1 && node == 0) == (idx == rootIndex), "root index is 2")
+	// key round trip
+	k := newNodeLocationFromKey(loc.key())
+	t.Assert(k.nodeIndex == node && k.layerIndex == uint64(layer), "newNodeLocationFromKey(key()) == loc")
+	// purely bit-level helpers: fully symbolic
+	a, b := t.U64("a"), t.U64("b")
+	t.Assert(areSiblings(a, b) == (a>>1 == b>>1 && a != b), "siblings share the parent and differ")
+	t.Assert(isLeft(a) == (a%2 == 0), "left children have even index")
+	t.Assert(areSameLayer(idx, idx^1), "siblings are in the same layer")
+	t.Reach("end")
+}
+
+// indexes.sort orders by (layer from the bottom, position); insert keeps the order and the set
+// semantics; remove deletes every occurrence; findInsertIndex returns the position of the value or
+// the position where it belongs.
+//
+//zz:opt loop=40 require=end
+//zz:quick L=3 I=8
+//zz:thorough L=3 I=16
+func zzH_C11_index_list(t *zzT) {
+	L := t.Range("len", 0, t.Param("L", 3))
+	list := make(indexes, L)
+	for i := range list {
+		list[i] = uint64(t.Range(t.Name("idx", i), 1, t.Param("I", 8)-1))
+		for j := 0; j < i; j++ {
+			t.Assume(list[i] != list[j])
+		}
+	}
+	orig := append(indexes{}, list...)
+	list.sort()
+	t.Assert(len(list) == L, "sort keeps the length")
+	for i := 0; i+1 < len(list); i++ {
+		t.Assert(zzBefore(list[i], list[i+1]), "sorted: longer indexes first, then ascending")
+	}
+	for _, x := range orig {
+		t.Assert(list.findIndex(x) >= 0, "sort keeps every element")
+	}
+	x := uint64(t.Range("x", 1, t.Param("I", 8)-1))
+	present := orig.findIndex(x) >= 0
+	pos := findInsertIndex(list, x)
+	t.Assert(pos >= 0 && pos <= len(list), "insert position within the list")
+	if present {
+		t.Assert(list[pos] == x, "findInsertIndex returns the position of a present value")
+	} else {
+		t.Assert((pos == 0 || zzBefore(list[pos-1], x)) && (pos == len(list) || zzBefore(x, list[pos])), "findInsertIndex returns the position that keeps the order")
+	}
+	ins := append(indexes{}, list...)
+	ins.insert(x)
+	if present {
+		t.Assert(len(ins) == L, "inserting a present value changes nothing")
+	} else {
+		t.Assert(len(ins) == L+1, "inserting a new value grows the list by one")
+	}
+	for i := 0; i+1 < len(ins); i++ {
+		t.Assert(zzBefore(ins[i], ins[i+1]), "insert keeps the order")
+	}
+	t.Assert(ins.findIndex(x) >= 0, "inserted value is present")
+	for _, y := range orig {
+		t.Assert(ins.findIndex(y) >= 0, "insert keeps every element")
+	}
+	rem := ins.remove(x)
+	t.Assert(rem.findIndex(x) == -1, "removed value is absent")
+	want := L
+	if present {
+		want = L - 1
+	}
+	t.Assert(len(rem) == want, "remove deletes exactly the value")
+	for i := 0; i+1 < len(rem); i++ {
+		t.Assert(zzBefore(rem[i], rem[i+1]), "remove keeps the order")
+	}
 	t.Reach("end")
 }
